@@ -53,6 +53,148 @@ CLAIMED = {
          "log2 bounds per build are checked by C12.",
     technique="TLC trace validation of one case file under four build configurations + TLA+ wire-format definition",
     design="5.C19"),
+ "C03": dict(
+    text="Algorithm-layer models of float add/sub (alignment branches, far-apart shortcut, digit over-estimate as a nondeterministic "
+         "choice, round_sum) and of mul/div/sqrt/sqr/cubic/inv with the six rounding tables are model-checked exhaustively in a small scope "
+         "(bases 2/3/10, p <= 3, 0.7 M states quick, 8 M thorough) against the rounding contract FloatDef!Rounded (exact-flag truth, < 1 ulp at "
+         "the exact value, <= 1/2 ulp and tie rule for the half modes, side by mode, AddOne/SubOne direction, exactness when representable, "
+         "at most p+1 digits); every model state is a generated case; the library executes them and seeded operands up to 60 digits in bases "
+         "2/3/10/16/36 in Context and operator forms, and a TLC monitor decides each result on exact rationals (Rat on BigInt).",
+    note="Trusted: TLC, spec/lib Rat/FloatDef (MC_RoundNative proves the native small-scope definition equal to FloatDef!RoundedWhy). "
+         "Operands fit the context precision as the property states. Known defects F02, F24 (and F17's effect on sqrt) are repaired in /repo.",
+    technique="TLA+ algorithm-layer models checked by TLC against a rounding contract + generated cases + TLC trace validation on exact rationals",
+    design="I.3 C03"),
+ "C04": dict(
+    text="RatioOps transcribes add/sub via gcd(b,d) with reduce_with_hint, mul/div cross-gcd, the integer-mixed forms, inv, pow, % and the "
+         "Euclidean forms; TLC checks it exhaustively for numerators -8..8 (-12..12 thorough) against exact values and canonicity, and as a "
+         "2-register history machine shows canonicity inductive. Conformance is a pool machine: the monitor keeps its own register file of "
+         "rationals (Rat), every event is dst := op(srcs) with the observed num/den, the monitor compares value, canonical form (Euclid on "
+         "BigNat; untrusted Bezout hints re-verified for large components), Relaxed = RBig value, and the panic on zero divisors.",
+    note="Trusted: TLC, Rat/BigNat. Known defect F20 (inv of zero) repaired in /repo.",
+    technique="TLA+ algorithm model + history machine checked by TLC, pool-machine trace validation",
+    design="I.3 C04"),
+ "C05": dict(
+    text="ReprLayer models the constructors/transitions of the integer representation over a 2-bit word (from_word/dword/buffer, ones, clone, "
+         "clone_from, into/from words, neg) with a heap model; TLC checks Canonical (211 k states quick, 1.5 M thorough). A pool machine "
+         "(UBig, IBig, FBig base 2/10 x 4 modes, RBig/Relaxed) runs TLC-enumerated depth-3 histories over the inline/heap boundary constants "
+         "plus random histories; after each step ALL PAIRS of registers are compared with ==, cmp, reverse cmp and hash, and the monitor "
+         "requires them to follow the exact values (BigInt/Rat), cmp Equal <=> ==, equal => equal hash, transitivity, and canonical hook triples.",
+    note="Trusted: TLC, BigInt/Rat, the cfg(dashu_verif) accessor. F01 (ones(128) on the heap) and F42/F41/F90 repaired in /repo; "
+         "F05/C05 (with_base can return more digits than the precision, which the float comparison trusts) is an open finding.",
+    technique="TLA+ representation model checked by TLC + all-pairs pool-machine trace validation",
+    design="I.3 C05"),
+ "C06": dict(
+    text="Ieee(M, Emin, Emax) defines IEEE-754 binary formats in TLA+ (value of a pattern, round-to-nearest-even of an exact rational incl. "
+         "subnormals/overflow, error sign); IeeeEncode transcribes FloatEncoding::encode into 8 branches and is model-checked exhaustively on "
+         "a mini format and on binary32/64 boundary families. TLC generates the boundary lattice of every conversion (2^24, 2^53, 2^64, 2^128, "
+         "overflow thresholds, 24/25- and 53/54-bit quotients, ties, subnormals, NaN/inf/-0, every primitive width) and a monitor checks "
+         "lossless-or-refused with round trip for From/TryFrom, and correct rounding + truthful flag + error sign for to_f32/to_f64/to_float/to_int.",
+    note="Trusted: TLC, Ieee.tla (self-checked on a mini float by brute force). to_f*_fast only bounded. Repaired: F06 F07 F08 F60 F63. "
+         "Open findings (class matchers): F05 F09 F31 F61 F62 F64 F66.",
+    technique="TLA+ IEEE-754 definition + encode model checked by TLC + generated boundary cases + TLC trace validation",
+    design="I.3 C06"),
+ "C07": dict(
+    text="TextDef defines positional digits (checked by Horner on BigNat), the literal grammar (sign, prefix, underscores, case), the exact "
+         "padded layout for every formatter flag, two's-complement bytes and chunks; FmtLayoutAlg (one action per branch of format_prepared) is "
+         "model-checked against Layout for all flag combinations x widths; TLC generates lengths on both sides of the per-word, 16/256-chunk and "
+         "divide-and-conquer thresholds of the radix converters x radices, one-edit mutations of literals, byte magnitudes around 256^k, chunk "
+         "sizes; the monitor validates digits exactly up to 2000 digits (residues modulo six primes beyond: sampled) and Rust's own i128 "
+         "formatting is a second oracle for the layout.",
+    note="Trusted: TLC, BigNat radix conversion. Beyond 2000 digits the digit check can miss but never falsely accuses. F13 F14 F27 repaired.",
+    technique="TLA+ layout model checked by TLC + generated threshold cases + TLC trace validation",
+    design="I.3 C07"),
+ "C08": dict(
+    text="FloatTextDef defines the float literal grammar (point, e/p/b/o/h/@ markers, hex float) with value and precision, print-parse identity, "
+         "fixed-precision printing and base/precision changes through FloatDef!Rounded; ConvertBaseAlg models the branch structure of convert_base "
+         "(same base, power up/down, small exponent, large exponent abstracted) and is model-checked in bases {2,3,4,8,10,16}; TLC generates grammar "
+         "derivations, round trips with exponents to +-400, precision printing in six modes, 36 base pairs around the exponent threshold; the "
+         "monitor decides everything on exact rationals.",
+    note="Trusted: TLC, Rat/FloatDef. Open findings: F05/C08, F30, C08.N1 (residual bound 2 ulp enforced), C08.N2.",
+    technique="TLA+ branch model checked by TLC + grammar-derived cases + TLC trace validation on exact rationals",
+    design="I.3 C08"),
+ "C10": dict(
+    text="The six round_low_part tables, round_fract and round_ratio (log2 pre-filter abstracted as any valid bounds) are model-checked against a "
+         "brute-force nearest-neighbour definition (252 k states quick, 1.4 M thorough); FloatSplit models split_at_point_internal and the "
+         "trunc/floor/ceil/round/fract/to_int/with_precision family (0.6 M / 7 M states); all model states are replayed, plus RBig/Relaxed rounding "
+         "and round_fract at 9 000-40 000 digits; the monitor checks the named neighbour, trunc + fract = x and flag truth on exact rationals.",
+    note="Trusted: TLC, Rat/FloatDef. F04 and F90 (and their follow-ups F04b/F04c/F90b) repaired in /repo.",
+    technique="TLA+ rounding-table and split models checked by TLC + TLC trace validation",
+    design="I.3 C10"),
+ "C11": dict(
+    text="Enclosure.tla is rigorous interval arithmetic on BigInt fixed point written in TLA+ (exp by argument reduction + Taylor with remainder "
+         "bound, ln by atanh series, powf by composition; self-checked against 60-digit constants and x in exp(ln x)); ExpLogAlg models the "
+         "discrete dispatch of exp.rs/log.rs (special values, sign handling, powi by squaring and inversion, refusal of unlimited precision) and is "
+         "model-checked for 234 input classes; TLC generates 191 argument shapes x 5 bases x 15 precisions and the monitor decides |r - x| < 1 ulp "
+         "three-valued (holds / fails for the whole enclosure / undecided -> re-enclose, never alarm) and Exact only for rational exact results.",
+    note="Trusted: TLC, Enclosure.tla. Precision <= 40 quick (100/300 sampled thorough). Open class findings with residual bounds and a rate "
+         "guard: F32 (>= 1 ulp errors), F32b (Exact on irrational results), F32d (ln of operands wider than the precision). F32c repaired.",
+    technique="TLA+ interval-arithmetic definition + dispatch model checked by TLC + TLC trace validation",
+    design="I.3 C11"),
+ "C12": dict(
+    text="NumTheoryDef states gcd/gcd_ext, roots with remainders, ilog, remove and log2 bounds as relations on BigNat (Euclid, powers, rigorous "
+         "2^f enclosures; undecidable-close log2 cases are accepted); Log2Table transcribes the table-driven no_std log2 estimator and is "
+         "model-checked for every u16 (98 k states) and compared with the recorded no_std outputs; TLC generates planted-gcd pairs (Fibonacci, "
+         "k/k+1, Lehmer quotient-overflow shapes), s^n + r radicands with odd/even word counts, b^e +- 1; primitives are exhaustive for u8 (u16 by "
+         "stride in quick, complete in thorough) in std, no_std and release builds.",
+    note="Trusted: TLC, BigNat. f32 patterns: exponent x mantissa lattice, not all patterns. Repaired: F15 F16 F17 F18 F29 F50.",
+    technique="TLA+ relational definitions + estimator model checked by TLC + TLC trace validation in three build configurations",
+    design="I.3 C12"),
+ "C13": dict(
+    text="ModularAlg models the pre-shifted residues, conditional subtract/borrow, negate, dbl, sqr, mul and the Reducer methods for 2-bit words x "
+         "1-3 words (single, double, large representations; 600 k states) and is model-checked against the homomorphism; TLC generates 21 modulus "
+         "classes x 11 ops x 10 operand shapes; the monitor reduces with BigNat!Mod, replays pow by square-and-multiply, checks inv <=> gcd = 1, "
+         "division, cross-ring panics, in debug and release builds.",
+    note="Trusted: TLC, BigNat!DivMod. Repaired: F23, F51 (and F34 found by C02).",
+    technique="TLA+ algorithm model checked by TLC + generated cases + TLC trace validation",
+    design="I.3 C13"),
+ "C14": dict(
+    text="OrderLadder models the comparison ladders of the three num_order modules (sign -> log2-bound filter -> exact comparison) with the log2 "
+         "bounds abstracted as ANY admissible pair, and TLC shows they never contradict the exact order (580 k states quick, 3 M thorough); the "
+         "harness compares all ordered pairs of a mixed-type pool (UBig, IBig, FBig in several bases, RBig, Relaxed, all primitive ints and floats, "
+         "equal-across-type values, last-bit neighbours, 10^+-400, infinities, -0.0, NaN) through NumOrd/AbsOrd/NumHash and the monitor decides on "
+         "exact rationals.",
+    note="Trusted: TLC, Rat, Ieee.tla. Repaired: F10 F28 F70.",
+    technique="TLA+ ladder model with abstract bounds checked by TLC + all-pairs TLC trace validation",
+    design="I.3 C14"),
+ "C16": dict(
+    text="PanicDef classifies every (operation, argument edge class) cell of an explicit inventory (232 operations + 17 parser entry points) as "
+         "must-panic / never-panic / either-but-prompt / excluded; TLC checks the classification total and consistent (31 k states) and emits one "
+         "case per cell (25 k quick) plus string cells (grammar slots, 1 MB digit runs, non-ASCII, exponent limits); suspect cells run one call per "
+         "forked process under a watchdog and a memory limit, in debug and release builds; the monitor requires the documented panic to occur "
+         "promptly and forbids panics, hangs and aborts everywhere else.",
+    note="Trusted: TLC, the process isolation of the worker (20 s budget, one re-run before a timeout is believed). Repaired: F12 F25 F16 F20 F22 "
+         "F23 F29 F04(+b,c). Open findings: F11, F36, C16.N1-N4, C16.N6.",
+    technique="TLA+ panic classification checked by TLC + one generated case per cell executed in isolated processes + TLC trace validation",
+    design="I.3 C16"),
+ "C17": dict(
+    text="ReprAlg/ReprLayer + HeapDef model the hand-managed storage (capacity policy, inline/heap switch, buffer reuse in clone_from, realloc, "
+         "drop) and TLC checks Canonical and the heap invariants; TLC enumerates histories over 3 registers x 8 size classes x 105 operations "
+         "(depth 4 quick, 5 thorough); the harness runs them under a recording global allocator with poisoned red zones and the monitor replays "
+         "the allocator events against the heap model (dealloc/realloc only of live blocks with the recorded size, one block of capacity*8 bytes per "
+         "heap value, no sharing, no leak when all registers are dropped) and checks the predicted capacity/length of every step; a subset of the "
+         "same histories is executed under Miri, any Miri error is a violation.",
+    note="Trusted: TLC, the recording allocator, Miri as the executor that observes undefined behaviour (out-of-bounds, use-after-free, invalid "
+         "layout); the TLA+ side contributes the history space and the ownership/leak invariants. F01 repaired.",
+    technique="TLA+ storage + heap model checked by TLC, allocator-trace validation by TLC, same histories under Miri",
+    design="I.3 C17"),
+ "C18": dict(
+    text="SimplifyDef is the brute-force definition (all fractions up to a denominator bound) of simplest-in-interval, Farey neighbours, nearest, "
+         "and the documented simplicity order; Simplify models the continued-fraction descent, the mediant walk and the float rounding intervals, "
+         "model-checked for denominators <= 8 (14 thorough, 1 M states) together with the equivalence of the BigInt characterisation used by the "
+         "monitor; all model states, a lifted f32/f64 lattice and small FBig values in six modes are replayed and decided by the characterisation.",
+    note="Trusted: TLC, Rat. f32/f64 exhaustive only on the lattice. Repaired: F21 F22 F82 F83. Open findings: F80, F81.",
+    technique="TLA+ brute-force definition + algorithm model checked by TLC + TLC trace validation",
+    design="I.3 C18"),
+ "C20": dict(
+    text="LiteralDef defines the token grammar of ubig!/ibig!/fbig!/dbig!/rbig! and static_ variants with Status, Value and Precision; TLC "
+         "enumerates derivations with magnitudes on both sides of 2^32, 2^64, 2^128 and beyond two words, and single-token mutations classified "
+         "invalid; one generated crate prints the macro value and the run-time parse of the same text for every valid literal (through "
+         "dashu_macros and the dashu facade) and a TLC monitor compares both with the definition; every invalid literal is compiled on its own and "
+         "must fail to compile.",
+    note="Trusted: TLC, rustc/cargo building the generated crate against /repo. Repaired: F27, C20.N2. Open finding: C20.N1 (zero float literals "
+         "lose their precision).",
+    technique="TLA+ literal grammar + TLC-generated programs compiled against the tree + TLC trace validation",
+    design="I.3 C20"),
 }
 NA_REASON = "check not built yet in this round (planned, see DESIGN.md section 9)"
 
